@@ -30,6 +30,61 @@ PROPS["C19"] = dict(
     assumptions=[ARITH, ENGINE, "dimension counts 1..4 are proved per instance (bounds symbolic and unbounded); higher dimension counts are not covered"],
 )
 
+V1 = ["contracts.value_iteration", "contracts.vi_solve"]
+SOLVER_ASSUME = [ARITH, ENGINE,
+    "jax.vmap / jax.pmap are maps over the leading axis with pytree-prefix in_axes; jax.lax.scan is a left fold (device placement, sharding and XLA behaviour are not modelled)",
+    "jax.jit is the identity on results",
+    "out-of-range reads return an unconstrained value; out-of-range scatter updates are dropped; duplicate scatter indices have an unspecified winner"]
+C02_UNITS = [U(V1, f"{VI}.{m}") for m in ["_get_value_next_state", "_calculate_updated_state_action_value", "_calculate_updated_value",
+             "_calculate_updated_value_state_batch", "_calculate_updated_value_scan_state_batches", "_update_values",
+             "_extract_policy_idx_one_state", "_extract_policy_idx_state_batch", "_extract_policy_idx_scan_state_batches", "_extract_policy"]]
+PROPS["C02"] = dict(
+    level="proof", units=C02_UNITS + PROPS["C18"]["units"][2:3],
+    lean=["bell_discop", "bellpol_discop", "contraction", "span_contraction", "greedy_eq", "bellpol_le_bell"],
+    links={"bell_discop": "monotone + shift-by-gamma*c of the operator that value_iteration.ValueIteration._update_values.post.elementwise proves the sweep to be (hypotheses P>=0, rows sum to 1 = WF-prob, discharged for the shipped problems under C13)",
+           "contraction": "gamma-contraction in the sup norm, from DiscOp", "greedy_eq": "a policy attaining the max (ValueIteration._extract_policy.post.attains_max) is greedy: T_d V = T V"},
+    trusted_base=["library models: vmap, pmap, lax.scan (carry-invariant = map), dot, max, argmax (first maximiser), take, reshape"],
+    assumptions=SOLVER_ASSUME + ["the abstract problem satisfies WF-shape (N, A, E >= 1); transition / probability / state_to_index are uninterpreted functions of opaque vectors, so the result holds for every problem and every vector dimension"],
+)
+PROPS["C08"] = dict(
+    level="proof", units=[U(V1, f"{VI}.{m}") for m in ["_get_span", "_get_max_diff", "_iteration_step", "solve"]]
+                       + [U(["contracts.logging_configs"], "mdpax.solvers.value_iteration.ValueIteration._setup_convergence_testing", only=["pos."])],
+    assumptions=SOLVER_ASSUME,
+)
+
+RV = "mdpax.solvers.relative_value_iteration.RelativeValueIteration"
+PV = "mdpax.solvers.periodic_value_iteration.PeriodicValueIteration"
+PI = "mdpax.solvers.policy_iteration.PolicyIteration"
+SA = "mdpax.solvers.semi_async_value_iteration.SemiAsyncValueIteration"
+SOLV = "mdpax.core.solver.Solver"
+PB = "mdpax.core.problem.Problem.build_transition_and_reward_matrices"
+DM = "mdpax.problems.perishable_inventory.de_moor_single_product.DeMoorSingleProductPerishable"
+HX = "mdpax.problems.perishable_inventory.hendrix_two_product.HendrixTwoProductPerishable"
+MJ = "mdpax.problems.perishable_inventory.mirjalili_platelet.MirjaliliPlateletPerishable"
+FO = "mdpax.problems.forest.Forest"
+RVM = V1 + ["contracts.rvi"]
+PROPS["C04"] = dict(level="proof",
+    units=[U(RVM, f"{RV}._iteration_step"), U(RVM, f"{SOLV}._initialize_values"), U(RVM, f"{RV}._initialize_solver_state_elements"),
+           U(RVM, f"{RV}.solve", timeout_ms=20000)],
+    lean=["rvi_gain_within", "rvi_monotone_bracket", "policy_gain_bracket", "policy_gain_eq"], assumptions=SOLVER_ASSUME,
+    replayers=[("*RelativeValueIteration*", "replay_c04.py")])
+PIM = V1 + ["contracts.pi"]
+PROPS["C05"] = dict(level="proof",
+    units=[U(PIM, f"{PI}.{m}") for m in ["_calculate_policy_value_state_batch", "_calculate_policy_values", "_evaluate_policy", "_iteration_step"]],
+    lean=["eval_bound", "eval_bound_threshold"], assumptions=SOLVER_ASSUME)
+SAM = ["contracts.value_iteration", "contracts.semi_async"]
+PROPS["C06"] = dict(level="proof",
+    units=[U(SAM, f"{SA}._calculate_updated_value_scan_state_batches", timeout_ms=30000), U(SAM, f"{SA}._shuffle_states"), U(SAM, f"{SA}._reorder_values")],
+    lean=["gs_fixed_point", "gs_fixed_converse", "perm_argsort_inv"], assumptions=SOLVER_ASSUME)
+PVM = V1 + ["contracts.periodic"]
+PROPS["C07"] = dict(level="proof",
+    units=[U(PVM, f"{PV}._calculate_period_span_without_discount", timeout_ms=30000), U(PVM, f"{PV}._calculate_period_span_with_discount", timeout_ms=30000),
+           U(PVM, f"{PV}._iteration_step", timeout_ms=30000), U(PVM, f"{PV}.solve", pop=[f"{PV}._iteration_step"], timeout_ms=20000)],
+    lean=["periodic_gain_bracket", "periodic_gain_within"], assumptions=SOLVER_ASSUME)
+PROPS["C17"] = dict(level="proof", units=[U(["contracts.matrices"], PB, timeout_ms=20000)], lean=["matrix_backup_eq"], assumptions=SOLVER_ASSUME)
+PROPS["C15"] = dict(level="proof", units=[U(["contracts.problems"], f"{t}.transition", timeout_ms=30000, wall_s=1200) for t in (DM, HX, MJ, FO)], assumptions=[ARITH, ENGINE])
+PROPS["C13"] = dict(level="proof", units=[U(["contracts.probabilities"], f"{DM}.{m}", timeout_ms=20000) for m in ("_convert_gamma_parameters", "_calculate_demand_probabilities")], lean=["telescope"], assumptions=[ARITH, ENGINE])
+
 HOOK_COMMITS = []
 NOT_APPLICABLE = {
     "C11": "crash atomicity and writer-thread interleavings live inside Orbax's commit protocol, which is not code of this repository; contracts on mdpax's calls can only assume atomic commit, not decide it (DESIGN.md section 6 C11). The contract-shaped fragments (step label, no mutation of a state handed to an asynchronous save, latest-step selection) are discharged under C09/C10/C12.",
